@@ -142,6 +142,9 @@ def check_unlisted(rec: Rec, text: str, origin: str):
 def replay(rec, case):
     i = case["input"]
     origin = i.get("origin", "replay")
+    if origin == "registry-independence":
+        registry_independence(rec, case.get("seed", 1))
+        return
     if "bban" in i:
         if origin.startswith("bban-object"):
             check_bban_objects(rec, i["cc"], i["bban"], onat.ref(i["cc"], i["bban"], oracle().positions(i["cc"])))
@@ -284,6 +287,50 @@ def shard_unlisted(arg):
     return rec
 
 
+def registry_independence(rec: Rec, seed):
+    """The national verdict is the algorithm's alone: a copy of the package whose bank registry lists bank codes of the listed
+    countries - nationally conforming and not - must judge IBANs built on those very codes like the reference does."""
+    import random
+    from ..engines.pkgcopy import PackageCopy
+    from ..oracles.core import repo_root
+    from .c12 import place_key
+    rng = random.Random(f"{seed}:C06:registry")
+    o, g = oracle(), gen()
+    rows, texts = [], []
+    for cc in onat.LISTED:
+        spec = o.table[cc]
+        pos = o.positions(cc)
+        lookup = spec.get("bic_lookup_components", ["bank_code"])
+        if any(c not in pos for c in lookup):
+            continue
+        for k in range(4):
+            b = g.natvalid_bban(cc, rng) if k % 2 == 0 else g.bban(cc, rng)
+            if b is None:
+                continue
+            code = "".join(b[pos[c][0]:pos[c][1]] for c in lookup)
+            rows.append({"country_code": cc, "bank_code": code, "bic": "", "name": f"{cc}{k}", "short_name": f"{cc}{k}", "primary": True})
+            texts.append((cc, b))
+            # and other accounts of the same (now listed) bank code
+            t = place_key(o, g, cc, code, rng)
+            if t:
+                texts.append((cc, t[4:]))
+    with PackageCopy(repo_root(), bank_files={"listed_codes.json": rows}) as pc:
+        ops = [{"op": "iban_verdict", "text": g.iban_of(cc, b), "validate_bban": True} for cc, b in texts]
+        res = pc.query(ops)
+        if isinstance(res, dict):
+            rec.notes.append("registry-independence copy does not import: " + res["import_error"][-200:])
+            return
+        for (cc, b), r in zip(texts, res):
+            want = onat.ref(cc, b, o.positions(cc))
+            inp = {"cc": cc, "bban": b, "origin": "registry-independence", "registry_rows": [x for x in rows if x["country_code"] == cc]}
+            if "crash" in r:
+                rec.fail(f"crash|registry-independence|{r['crash']}", "national_total", inp, want, r)
+            elif want is not None and ("ok" in r) is not want:
+                rec.fail(f"{'false_accept' if 'ok' in r else 'false_reject'}|{cc}|registry-independence", "national_iff_reference", inp, want, r)
+            rec.case("registry-independence", (cc, b, "copy") if want is not None else None,
+                     {"cc": cc, "bban": b, "reference": want, "bank code listed in the copy's registry": True})
+
+
 def run(ctx):
     import vlib.lib  # noqa: F401
     o = oracle()
@@ -300,9 +347,10 @@ def run(ctx):
                        "Germany is judged by C07; here only monotonicity"]
     ctx.pmap(shard_listed, [(cc, ctx.seed, ctx.tier) for cc in onat.LISTED])
     ctx.pmap(shard_unlisted, [(cc, ctx.seed, ctx.tier) for cc in o.countries()])
+    registry_independence(ctx.rec, ctx.seed)
     need = []
     for cc in onat.LISTED:
         need += [f"{cc}-accept", f"{cc}-reject"]
-    ctx.require_classes("unlisted-valid", "mutant", "sweeps", "edge-sweeps", "sibling-text", "bban-object-direct", "bban-object-from_components", *need)
+    ctx.require_classes("registry-independence", "unlisted-valid", "mutant", "sweeps", "edge-sweeps", "sibling-text", "bban-object-direct", "bban-object-from_components", *need)
     ctx.extra["per_country"] = {cc: {"accept": ctx.rec.classes.get(f"{cc}-accept", 0),
                                      "reject": ctx.rec.classes.get(f"{cc}-reject", 0)} for cc in onat.LISTED}
